@@ -341,9 +341,9 @@ BOUND_POOL = [[0, 1], [0, 2.5], [-1, 1], [-2, 5], [1, 4], [0.5, 7], [-3, -1], [0
 
 class Prop:
     ID = "C20"
-    LEVEL = "exploration"
-    COQ_HEADER = ""
-    CHECK_FN = ""
+    LEVEL = "proof"
+    COQ_HEADER = "From TN Require Import Harness.H_C20.\nFrom Coq Require Import QArith.\nOpen Scope Q_scope.\n"
+    CHECK_FN = "check"
     RULE = ("partial: enumerated format lattice ({TT,CP}x{U,no U}) of the differentiated mode x position "
             "(first/middle/last) x order 1..3 x periodic x default/explicit bounds for N=1,2 (all), N=3 (sampled in "
             "quick), seeded N=4; sizes 3..6 (different per mode, so a step taken from another mode shows), lists of "
@@ -360,7 +360,7 @@ class Prop:
                    "dependence cancels (e.g. only(weight_mask(4,[1,3]) ^ x0)) logic.relevant_symbols misjudges relevance "
                    "by rounding (norm ~1e-8 against a 1e-10 threshold) - a logic.py robustness defect outside this property",
                    "sizes >= 3 along differentiated modes, and > max order for partialset (as quantified)"]
-    THEOREMS = []
+    THEOREMS = ["C20_partial", "C20_stencil", "C20_constants_annihilated", "C20_affine_to_constant"]
 
     # ------------------------------------------------------------------ generation
     def generate(self, rng, tier):
@@ -682,4 +682,31 @@ class Prop:
         return "%s;%s;%s;%s" % (t["op"], t["formats"], tshape(case["ts"][0]), json.dumps(args)[:300])
 
     def coq_term(self, case, res):
-        return None
+        """tn.partial on one tensor: the model applies, per differentiated mode, the stencil matrix times 1/step"""
+        from fractions import Fraction
+        if not res.get("ok") or case["op"] not in ("partial", "constant", "affine") or not res.get("outs"):
+            return None
+        tj = case["ts"][0]; shape = tshape(tj); N = len(shape)
+        dim = case["dim"]; dims = [dim] if isinstance(dim, int) else list(dim)
+        bounds = case["bounds"]
+        if bounds is None:
+            bounds = [[0, shape[d]] for d in dims]
+        if not hasattr(bounds[0], "__len__"):
+            bounds = [bounds]
+        periodic = case["periodic"]
+        if not hasattr(periodic, "__len__"):
+            periodic = [periodic] * len(dims)
+        if any(I < 3 for I in shape):
+            return None
+        ds = []
+        for i, d in enumerate(dims):
+            lo, hi = Fraction(bounds[i][0]).limit_denominator(10 ** 6), Fraction(bounds[i][1]).limit_denominator(10 ** 6)
+            step = (hi - lo) / (shape[d] + 1) * 2
+            if step == 0:
+                return None
+            ds.append("(%d%%nat, %s, %s)" % (d % N, qlit(1 / step), "true" if periodic[i] else "false"))
+        lit = lambda x: qlit(Fraction(x).limit_denominator(10 ** 9))
+        qd = lambda x: "(%d#%d)" % (round(x * 2 ** 40), 2 ** 40)
+        out = res["outs"][0]
+        return "mkCase %s %d%%nat [%s] %s %s" % (coq_tensor(tj, lit, "Q"), case["order"], "; ".join(ds),
+                                                coq_natlist(out["shape"]), coq_list(out["dense"], qd, "Q"))
